@@ -504,9 +504,10 @@ package appencryption
 //@   ensures [C02,C14:cache-returns-backed-key] err == nil ==> wfCK(result) && ms[id][result.CryptoKey.created]
 
 //@ func (neverCache).GetOrLoad
-//@   facet C09, C02, C14, C07
+//@   facet C09, C02, C14, C07, C20
 //@   safety C07
 //@   opt no-frame
+//@   ensures [C20:never-cache-always-loads-and-retains-nothing] lcalls == old(lcalls) + 1
 //@   ensures [C09:uncached-key-has-one-reference] err == nil && !cacheowned(result.CryptoKey.secret) ==> owed(result) == 1
 //@   ensures [C09:no-stray-secret] forall s securememory.Secret :: live(s) && !old(live(s)) ==> fresh(s) && (cacheowned(s) || (err == nil && s == result.CryptoKey.secret))
 //@   ensures [C09:cache-ownership-is-kept] forall s securememory.Secret :: old(cacheowned(s)) ==> cacheowned(s)
@@ -520,9 +521,10 @@ package appencryption
 //@   ensures [C02,C14:cache-returns-backed-key] err == nil ==> wfCK(result) && ms[id.ID][result.CryptoKey.created]
 
 //@ func (neverCache).GetOrLoadLatest
-//@   facet C09, C02, C14, C07, C04
+//@   facet C09, C02, C14, C07, C04, C20
 //@   safety C07
 //@   opt no-frame
+//@   ensures [C20:never-cache-always-loads-and-retains-nothing] lcalls == old(lcalls) + 1
 //@   ensures [C09:uncached-key-has-one-reference] err == nil && !cacheowned(result.CryptoKey.secret) ==> owed(result) == 1
 //@   ensures [C09:no-stray-secret] forall s securememory.Secret :: live(s) && !old(live(s)) ==> fresh(s) && (cacheowned(s) || (err == nil && s == result.CryptoKey.secret))
 //@   ensures [C09:cache-ownership-is-kept] forall s securememory.Secret :: old(cacheowned(s)) ==> cacheowned(s)
@@ -600,3 +602,12 @@ package appencryption
 //@ spec fn cachedRevoked(c *keyCache, meta KeyMeta) bool = cval(c.keys)[slotOf(c, meta)].key.CryptoKey.revoked == 1
 //@ spec fn cachedCreated(c *keyCache, meta KeyMeta) int64 = cval(c.keys)[slotOf(c, meta)].key.CryptoKey.created
 
+
+// ---- C20: one system-key cache per factory (and one intermediate-key cache when sharing is enabled) ----
+
+//@ func newSession
+//@   facet C20
+//@   opt no-frame
+//@   requires f != nil && f.Config != nil && f.Config.Policy != nil
+//@   ensures [C20:sessions-share-the-factory-s-system-key-cache] err == nil ==> result != nil && result.skCache == old(f.systemKeys) && istype(result.encryption, *envelopeEncryption) && dyn(result.encryption, *envelopeEncryption).skCache == old(f.systemKeys)
+//@   ensures [C20:shared-ik-cache-when-enabled] err == nil && old(f.Config.Policy.SharedIntermediateKeyCache) ==> dyn(result.encryption, *envelopeEncryption).ikCache == old(f.intermediateKeys)
